@@ -466,3 +466,11 @@ RULES = [
     ("C01.h", "process* cannot reach a time write", rule_h),
     ("C01.i", "time writes hold the queue lock", rule_i),
 ]
+
+
+def rule_inventory(ctx):
+    from . import inventory
+    inventory.check(ctx, ['sched-queue-pull', 'sched-queue-insert'])
+
+
+RULES.append(("C01.m", "state-mutation inventory: no new site that changes the content of the state this property rests on", rule_inventory))
